@@ -247,7 +247,8 @@ def part1(chk, run):
                 kinds = WRAP_KINDS_ALL if it.name in ("Dense", "Dense[rect]") else sub.sample(WRAP_KINDS_ALL, 2 if n == 3 else 1)
                 picks.append((it, kinds))
         else:
-            picks = [(it, WRAP_KINDS_ALL if n == 3 or it.name.startswith("Dense") else sub.sample(WRAP_KINDS_ALL, 4)) for it in bases]
+            picks = [(it, WRAP_KINDS_ALL if (n == 3 and dtype == torch.float64 and len(batch) <= 1) or it.name.startswith("Dense")
+                      else sub.sample(WRAP_KINDS_ALL, 3)) for it in bases]
         for it, kinds in picks:
             with warnings.catch_warnings():
                 warnings.simplefilter("ignore")
